@@ -194,7 +194,7 @@ def _traffic_handshake(segsize):
 
 def _traffic_tokens(job):
     lo, hi = job
-    toks = ["'", '"', "\\", "\n", "\x00", "A", "<"]
+    toks = ["'", '"', "\\", "\n", "\x00", "A", "<", "</DATAS>", "<DATAS>", "</PACKT>"]
     strings = ["".join(t) for n_ in (1, 2, 3, 4) for t in itertools.product(toks, repeat=n_)]
     tmp = tempfile.mkdtemp(prefix="geckomc-c19-", dir="/tmp")
     n = 0
@@ -246,6 +246,17 @@ def _shipped_job(path):
             out.append(("header", f"{tag}: {len(s.bytes)} bytes, pack type {s.packtype!r}"))
             continue
         rig = Rig(Chooser(), snapshot=s)
+        load_errs = [r for r in lib.LOG.records if "snapshot load" in r[2]]
+        sim = rig.peer.sim
+        # "the simulator can load it": the load itself must have succeeded, with the tables the snapshot names
+        if load_errs:
+            out.append(("load", f"{tag}: simulator.set_snapshot failed: {load_errs[0][3]}"))
+        elif (getattr(sim, "config_class", None) is None or getattr(sim, "log_class", None) is None
+              or sim.config_class.version != s.config_version or sim.log_class.version != s.log_version
+              or not sim.structure.accessors or sim.structure.status_block != s.bytes):
+            out.append(("load", f"{tag}: simulator loaded cfg {getattr(getattr(sim, 'config_class', None), 'version', None)} / log "
+                                f"{getattr(getattr(sim, 'log_class', None), 'version', None)} with {len(sim.structure.accessors)} items, "
+                                f"snapshot says cfg {s.config_version} / log {s.log_version}"))
         ok = rig.connect(120.0)
         errs = list(lib.LOG.records)
         if not ok:
@@ -299,7 +310,7 @@ def run(ctx):
         nontrivial.add(("segsize", sz))
         if why:
             ctx.violation(f"C19|traffic|{why[0]}", why[1], {"mode": "traffic-handshake", "segsize": sz})
-    ntok = 7 + 49 + 343 + (2401 if not ctx.quick else 0)
+    ntok = 10 + 100 + 1000 + (10000 if not ctx.quick else 0)
     tjobs = [(lo, min(ntok, lo + 25)) for lo in range(0, ntok, 25)]
     for n, bad in core.pmap(ctx, _traffic_tokens, tjobs, chunksize=1):
         evals += n
